@@ -2,10 +2,27 @@
 """Entry point:  check.py <Cxx> --tier quick|thorough   |   check.py --replay <file>"""
 import argparse, os, sys
 sys.path.insert(0, os.path.dirname(os.path.abspath(__file__)))
-os.environ.setdefault("PYTHONHASHSEED", "0")
-if os.environ.get("PYTHONHASHSEED") != "0" or not os.environ.get("_CV_REEXEC"):
-    # pin str hashing so that replays are exact (set iteration order in the gin code depends on it)
-    os.environ["PYTHONHASHSEED"] = "0"; os.environ["_CV_REEXEC"] = "1"
+# str hashing is pinned so that replays are exact (set iteration order in the gin code depends on it) -- to a value derived
+# from the run's seed, so that different seeds also exercise different set orders (seed 0 -> hash seed 0); a replay file
+# carries the hash seed it was found under (VERIF_HASHSEED overrides)
+def _want_hashseed():
+    if os.environ.get("VERIF_HASHSEED"):
+        return os.environ["VERIF_HASHSEED"]
+    if "--replay" in sys.argv:
+        try:
+            import json
+            return str((json.load(open(sys.argv[sys.argv.index("--replay") + 1])).get("env") or {}).get("PYTHONHASHSEED", "0"))
+        except Exception:
+            return "0"
+    try:
+        return str(int(os.environ.get("VERIF_SEED", "0")) % 5)
+    except ValueError:
+        return "0"
+
+
+_hs = _want_hashseed()
+if os.environ.get("PYTHONHASHSEED") != _hs or not os.environ.get("_CV_REEXEC"):
+    os.environ["PYTHONHASHSEED"] = _hs; os.environ["_CV_REEXEC"] = "1"
     os.execv(sys.executable, [sys.executable, *sys.argv])
 
 from harness import engine, registry
